@@ -377,6 +377,24 @@ Next ==
 
 Spec == Init /\ [][Next]_vars
 
+\* ------------------------------------------------------------- liveness (checked with MaxHist = 0, so hist never changes)
+\* Weak fairness for every step of the scheduler's own goroutines and timers, for loads in flight (they
+\* finish, one way or the other) and for the end of GRANTED requests (the requests ahead eventually
+\* complete).  Nothing is assumed about the environment otherwise: submissions, cancellations of
+\* waiting requests and explicit unloads may or may not happen.
+F(A) == WF_vars(A /\ hist' = hist)
+Fair ==
+  /\ F(PRecv) /\ F(PIgnoreUnloaded) /\ F(PDecide) /\ F(PNeedsReload) /\ F(PUse) /\ F(PFit) /\ F(PUpdFree)
+  /\ F(PLoad) /\ F(PVictim) /\ F(PExpire) /\ F(PWait)
+  /\ F(CFinished) /\ F(CFinBody) /\ F(CExpired) /\ F(CUnload) /\ F(CPost) /\ F(XBody)
+  /\ \A r \in RunnerId : F(LoadOk(r) \/ LoadFail(r)) /\ F(TimerFire(r)) /\ F(TimerRun(r)) /\ F(Requeue(r))
+  /\ \A q \in Req : F(FinPost(q)) /\ F(rq[q].st = "granted" /\ EndCtx(q))
+LiveSpec == Init /\ [][Next]_vars /\ Fair
+\* C02: a request that was queued and is not cancelled gets its reply
+Answered == \A q \in Req : (rq[q].st = "queued") ~> (rq[q].replies = 1 \/ rq[q].ctx = "done")
+\* C02: once every request is over for good, every runner that was started is eventually shut down, for good
+Drain == <>[](\A q \in Req : rq[q].st # "new" /\ rq[q].ctx = "done") => <>[](\A r \in RunnerId : ~Live(r))
+
 \* ------------------------------------------------------------- properties
 \* C01
 NoCloseWhileInUse == "close_in_use" \notin viol
